@@ -48,7 +48,7 @@ package controllers
 //@ const DEFAULTFG = features.DefaultMutableFeatureGate
 
 //@ func (*UpstreamClusterController).syncUpstreamCluster props C11
-//@   requires [infos_wf] forall x *clusters.ClusterInfo :: {x.featuregate} x != nil ==> (x.featuregate in fgalive) && x.featuregate != DEFAULTFG
+//@   requires [infos_wf] forall x *clusters.ClusterInfo :: {x.featuregate} x != nil ==> xClusterWF
 //@   requires [default] (DEFAULTFG in fgalive) && fgval[DEFAULTFG] == gdefault()
 //@   modifies *
 
